@@ -23,8 +23,13 @@ TRUSTED = ["the writer/reader schemas reach the model as the parsed dicts and th
            "violation signatures are labels computed by Python predicates over the case; the verdict itself is the model's"]
 ASSUMPTIONS = ["named types are not called like a built-in type name", "logical types other than unknown ones are not generated (C16)",
                "reader schemas that fastavro.parse_schema rejects are not generated",
-               "dict insertion order of the result is not compared (DESIGN 1.3)"]
-PARTIAL = ["C08_factor is proved as C08_factor_code (rdec = decode ; rval: all schema pairs, options, layouts) + C08_factor_zone_partial (rval = resolve for schemas without by-name references/annotations inside the computable agreement zone `agree`); the full statement is refuted by 8 concrete witnesses (props/C08.v); missing: the zone theorem for schemas with by-name references and dict-form primitives"]
+               "dict insertion order of the result is not compared (DESIGN 1.3)",
+               "str defaults that float() would accept ('1.5', 'nan') are not generated for unions containing float/double"]
+PARTIAL = ["C08_factor is proved as C08_factor_code (rdec = decode ; rval: all schema pairs, options, layouts) + C08_factor_zone_partial (rval = resolve for "
+           "schemas without by-name references/annotations under the computable condition `agree`: no empty reader union, no empty-string enum default, "
+           "well-formed JSON defaults); that the code's match verdicts / reader-union branch choice / record guard coincide with the specification's is proved "
+           "for these schemas; missing: the zone theorem for schemas with by-name references and dict-form primitives. The full statement was false of the "
+           "code before the repairs (C08_old_code_refuted_*, about model/ResolveOld.v)"]
 
 SRE = "SchemaResolutionError"
 
